@@ -21,6 +21,11 @@
 (*   used   subset of keys that has received funds                         *)
 (*   accts  set of [net, wt, acct] that exist                              *)
 (*   dflt   the default account                                            *)
+(*   obj    what the caller's key object (the HDKey handed to              *)
+(*          Wallet.create, a cosigner key, the object public_master        *)
+(*          returns) says about itself: [wt, net] - an INPUT of the        *)
+(*          wallet: no action changes it (cfg.kwt: its witness type, which *)
+(*          may differ from the one the wallet was created with)           *)
 (* cfg: [net, wt, acct] the wallet was created with, ms (multisig wallet   *)
 (*      whose other cosigners are given as account public keys: one        *)
 (*      account, one witness type, one network), cos (own cosigner index), *)
@@ -128,6 +133,7 @@ NextSet(s, c) == IF Idxs(s, c) = {} THEN {0} ELSE {MaxOf(Idxs(s, c)) + 1, Hole(I
 InitS(cfg) == [keys  |-> IF cfg.ms THEN {} ELSE {Pos(Chain(cfg.net, cfg.wt, cfg.acct, 0), 0)},
                used  |-> {},
                dflt  |-> cfg.acct,          \* the account a request without account number refers to
+               obj   |-> [wt |-> cfg.kwt, net |-> cfg.net],
                accts |-> {Acct(cfg.net, cfg.wt, cfg.acct)}]
 
 \* two networks of one wallet must not share a coin type: their keys and (where the address prefixes agree) their
@@ -247,6 +253,15 @@ Attribution(cfg, s, a, out) ==
     ELSE IF Explains(cfg, s, a, out, DevCombos[2]) THEN DevCombos[2]
     ELSE IF Explains(cfg, s, a, out, DevCombos[3]) THEN DevCombos[3]
     ELSE <<>>
+
+(* ----------------------------- the caller's key object ---------------------- *)
+\* A key object is described by a sequence of <<field, value>> (witness type, network, key bytes, chain code, depth,
+\* serializations, address, flags).  Creating a wallet from it - with whatever explicit settings -, exporting account keys
+\* and every wallet action leave the description as it was; hence a wallet made LATER from the same object with default
+\* settings is the wallet of the object's original witness type and network (ReuseCfg), with the keys of that purpose.
+ObjChanged(before, after) == {before[i][1] : i \in {j \in 1..Len(before) : j > Len(after) \/ before[j] # after[j]}}
+ObjField(o, f) == o[CHOOSE i \in 1..Len(o) : o[i][1] = f][2]
+ReuseCfg(o) == [net |-> ObjField(o, "network"), wt |-> ObjField(o, "witness_type"), acct |-> 0]
 
 (* ----------------------------- design-level statements --------------------- *)
 \* two different positions never have the same path: with BIP32 (C03: a path determines the key, different paths give
